@@ -40,6 +40,7 @@ def check_property(pid, tier="quick", seed=0, write_baseline=False):
     timeout_ms = 60000 if tier == "quick" else 180000
     if tier == "thorough":
         os.environ.setdefault("NUCSVC_UNROLL_SECONDS", "14400")  # e.g. alldifferent at arity 3 needs about 70 minutes on one core
+        os.environ.setdefault("NUCSVC_HARD_CAP_S", "21600")  # the hard cap of a task batch must stay above the longest legitimate task
     lines = []
     verdict = dict(violations=[], undecided=[], errors=[], known=[], degraded=[])
     fns = sorted(q for q, c in reg.contracts.items() if pid in c.props)
